@@ -142,8 +142,12 @@ func runC03(ctx *core.Ctx, pool *par.Pool) {
 	var flushPaths []SeqPathParams
 	flushSig := map[string]bool{}
 	runs := plan(cfgs, []seed{seedTwo, seedWAL, seedFrag}, depth, seedDepth)
+	if ctx.Quick() {
+		runs = []bfsRun{{pagedrv.CfgA, seedEmpty, depth}, {pagedrv.CfgC, seedEmpty, depth - 1}, {pagedrv.CfgA, seedTwo, seedDepth}, {pagedrv.CfgA, seedWAL, seedDepth},
+			{pagedrv.CfgA, seedFrag, seedDepth - 1}, {pagedrv.CfgC, seedWAL, seedDepth - 1}}
+	}
 	for _, run := range runs {
-		ctx.Share(ctx.Budget() * 6 / 10 / time.Duration(len(runs)))
+		ctx.Share(ctx.Budget() * 7 / 10 / time.Duration(len(runs)))
 		cfg := run.Cfg
 		st := xstate.BFS(ctx, pool, xstate.Spec{Cfg: cfg, Seed: run.Seed.Ops, Alphabet: c03Alphabet(cfg, ctx.Quick()), MaxDepth: run.Depth,
 			OnTransition: func(from *xstate.Node, s *xstate.Succ, isNew bool, _ *xstate.Node) {
